@@ -133,6 +133,17 @@ func runE2EFiles(c *core.Ctx) {
 		p := filepath.Join(c.Dir, fmt.Sprintf("mf-%d-%d.fasta", c.Idx, f))
 		os.WriteFile(p, []byte(sb.String()), 0o644)
 		defer os.Remove(p)
+		if c.Idx%3 == 2 && n >= 3 && c.Rng.Intn(2) == 0 {
+			// this file is given as a gzip file made of several members (cat a.gz b.gz, bgzip)
+			text := []byte(sb.String())
+			a := 1 + c.Rng.Intn(len(text)-2)
+			if comp, _, err := gen.CompressMembers("gzip", [][]byte{text[:a], text[a:]}); err == nil {
+				p += ".gz"
+				os.WriteFile(p, comp, 0o644)
+				defer os.Remove(p)
+				c.Count("multi_member_gzip_inputs", 1)
+			}
+		}
 		paths = append(paths, p)
 		texts = append(texts, sb.String())
 	}
